@@ -4,7 +4,7 @@ import re
 
 from ..core import AnalysisError
 from .shared_py import inn
-from ..pyfront import unparse, try_const
+from ..pyfront import path_conditions, unparse, try_const
 from . import shared_gen as G
 from . import c13_progress
 
@@ -127,6 +127,23 @@ def dependencies(ctx, L):
     t = m.func('Typedef.dependencies')
     L.check(ws(unparse(t.node.body[-1])) == 'yield self.type_name', 'C15b.dependency-complete', 'Typedef.dependencies', t.site(),
             'a typedef / member depends on its type name', '')
+    # a member class may refine dependencies() (sizes, discriminators) but must keep the dependency on its type for every member:
+    # optional, array or plain alike (the generated Python references the type by name in all of them)
+    for q in ('StructMember.dependencies', 'UnionMember.dependencies'):
+        if q not in m.funcs:
+            continue
+        g = m.func(q)
+        keeps = False
+        for y in g.walk():
+            if isinstance(y, (ast.Yield, ast.YieldFrom)) and y.value is not None:
+                src = ws(unparse(y.value))
+                if src == 'self.type_name' or 'super(' in src or 'Typedef.dependencies(self)' in src:
+                    if not path_conditions(g.module, g, y):
+                        keeps = True
+        L.check(keeps, 'C15b.dependency-complete', q + '|type-name', g.site(),
+                '%s overrides Typedef.dependencies and does not yield the type name on every path: a member whose type is defined later '
+                '(e.g. an optional member, "it is only a pointer") is no longer moved behind its type - NameError at import of the '
+                'generated module, unknown sizes in the model' % q, ws(unparse(g.node))[:300])
     k = m.func('_Container.dependencies')
     L.check('for member in self.members: for dependency in member.dependencies(): yield dependency' in ws(unparse(k.node)),
             'C15b.dependency-complete', '_Container.dependencies', k.site(), 'a struct / union depends on what its members depend on', '')
